@@ -20,6 +20,7 @@
 //	    delivered to the current state's Receive (kind 0..9 signing message types, 10 = foreign
 //	    payload; the session id stands for "<message>-<attempt number>").
 //	    `st=<state> can=<CanTransition> n=<history size> r0=… r9=<receivedMessages[T] as sender.seq>`
+//	wsign <n> <t> <excluded> <msg>   REAL wallet signing through the tbtc signing executor, see wsign.go
 //	sign <n> <t> <excluded> <subsets> <msg>   REAL run: DKG of an n-group (honest threshold t) with the
 //	    excluded members, registerSigner's finalSigningGroup, then signing.Execute for each subset
 //	    (`.`-separated lists of FINAL member indexes, `|` between subsets) of message <msg> (decimal).
@@ -378,6 +379,10 @@ func exec(op string) (string, string) {
 		return execSig(f)
 	case len(f) == 7 && f[0] == "srecv":
 		return execSrecv(f)
+	case len(f) == 5 && f[0] == "wsign":
+		return execWsign(f)
+	case len(f) == 5 && f[0] == "wsign!":
+		return execWsignChild(f)
 	case len(f) == 6 && f[0] == "sign":
 		return execSign(f)
 	}
@@ -535,6 +540,7 @@ func gen(r *hx.Rng, n int, tier string) []string {
 		}
 	}
 	ops = append(ops, genSign(r, tier)...)
+	ops = append(ops, genWsign(r, tier)...)
 	return ops
 }
 
